@@ -49,6 +49,14 @@ func VerifyPE(r io.ReadSeeker, skipDigests bool) ([]PESignature, error) {
 	} else if hvals.certSize == 0 {
 		return nil, sigerrors.NotSignedError{Type: "PECOFF"}
 	}
+	// The certificate table must lie within the file
+	fileSize, err := r.Seek(0, io.SeekEnd)
+	if err != nil {
+		return nil, err
+	}
+	if hvals.certStart > fileSize || hvals.certSize > fileSize-hvals.certStart {
+		return nil, errors.New("PE certificate table extends past the end of the file")
+	}
 	// Read certificate table
 	sigblob := make([]byte, hvals.certSize)
 	if _, err := r.Seek(hvals.certStart, 0); err != nil {
